@@ -308,18 +308,13 @@ class Setting:
         }
 
     def __copy__(self):
-        setting = Setting(
-            str(self.name),
-            copy.copy(self._default),
-            description=None if self.description is None else str(self.description),
-            label=None if self.label is None else str(self.label),
-            options=copy.copy(self.options),
-            schema=copy.copy(self.schema) if hasattr(self, "schema") else None,
-            enforcedOptions=bool(self.enforcedOptions),
-            subLabels=copy.copy(self.subLabels),
-            isEnvironment=bool(self.isEnvironment),
-            oldNames=None if self.oldNames is None else list(self.oldNames),
-        )
+        # keep the class (and with it the custom ``dump``) of compound settings
+        setting = self.__class__.__new__(self.__class__)
+        setting.__dict__.update(self.__dict__)
+        setting._default = copy.copy(self._default)
+        setting.options = copy.copy(self.options)
+        setting.subLabels = copy.copy(self.subLabels)
+        setting.oldNames = list(self.oldNames)
         setting._value = copy.deepcopy(self._value)
         return setting
 
